@@ -1,5 +1,7 @@
 """C04 - argparse-function round trip: parse.argparse_ast(emit.argparse_function(ir)) describes the same interface."""
 from harness.rt import *  # noqa: F401,F403
+from harness import gridrun
+from harness.gridrun import grid_ob  # noqa: F401  (obligation bodies call H.grid_ob)
 from harness.rt import mk_ob
 
 FUNCS = [
@@ -26,4 +28,5 @@ def obligations(tier, seed):
         obs.append(mk_ob("rt", "rt", "argparse", sid, {"emit_default_doc": False}, tier, funcs=FUNCS))
     for sid in (["p1_int_d", "p1_str_s"] if tier == "quick" else EXPR):
         obs.append(mk_ob("text", "rt", "argparse", sid, {"emit_default_doc": True}, tier, extra=", text=True", kind="F", fixed={"p": "the a b"}, str_alpha="STR_T", funcs=FUNCS))
+    obs += gridrun.obligations('C04', tier, FUNCS)
     return obs
